@@ -106,6 +106,14 @@ CHECKS = {
             'the parser under every (<=4 files) or 6 sampled listing orders.',
             'header-relative padding; valid cards only (no quotes/empty strings/long keys); listing order injected by replacing raw_utils.glob in-process; blimpy GuppiRaw not used as second reader',
             'DESIGN.md 3/C04'),
+    'C20': ('exploration',
+            'exact rational recomputation of all size/length bookkeeping over generated (quick) and fully enumerated (thorough) configuration tuples; instrumented recordings counting samples drawn',
+            'Configuration tuples (5 rates x 4 branch counts x taps x channels x antennas x pols x bits x windows x blocks; product enumerated '
+            'completely in the thorough tier) with generated durations (generic, exact block multiples, +-ulps): samples/time per block, '
+            'get_num_blocks under the 1e-9 boundary rule, observation length, total samples and the stand-alone helpers are compared with exact '
+            'rationals; tiny configurations are recorded with a counting wrapper on the antenna (samples drawn, clock advance, SCANLEN, PKTIDX/PKTSTOP).',
+            'finite value lists for rate/size parameters (the thorough tier is exhaustive over that product only); durations sampled',
+            'DESIGN.md 3/C20'),
 }
 
 ALL = [f'C{i:02d}' for i in range(1, 21)]
